@@ -292,3 +292,14 @@ PROPS["C15"]["level_text"] = ("Deductive (unbounded, over an uninterpreted matri
 for _p in ("C05", "C15", "C20"):
     PROPS[_p]["explanation"] = PROPS[_p]["level_text"]
     PROPS[_p]["level_note"] = PROPS[_p]["level_note"].replace("No function of this property is under a machine-checked contract yet", "Only the named helper functions / segments are under contract").replace("no function of this property is under contract", "only build_tree_skip_grams' loop is under contract")
+
+# timestamps must never pass through a format narrower than float64 (C03, precision flow)
+PROPS["C03"]["structural"] = [
+    st("preprocessing.py", "preprocess_timed_token_sequences", "kwarg", callee="array", keyword="dtype", value="np.float64", arg_contains="token[1]"),
+    st("timed_token_cooccurrence_vectorizer.py", "numba_build_skip_grams", "kwarg", callee="array", keyword="dtype", value="np.float64", arg_contains="target_time", missing_ok=True),
+    st("timed_token_cooccurrence_vectorizer.py", "numba_em_cooccurrence_iteration", "kwarg", callee="array", keyword="dtype", value="np.float64", arg_contains="target_time", missing_ok=True),
+]
+
+PROPS["C09"]["structural"] = [
+    st("mixed_gram_vectorizer.py", "BytePairEncodingVectorizer.transform", "same-branch", other="BytePairEncodingVectorizer.fit_transform", test="self.return_type == 'tokens'"),
+]
